@@ -128,6 +128,15 @@ func (p c11) Exec(t *core.Trace) *core.Result {
 	d := bi.D
 	if t.I("foreign") == 1 {
 		switch {
+		case strings.HasPrefix(kind, "fat") && t.Seed&2 == 2:
+			// the second copy of the FAT differs from the first in an entry nobody uses (a volume that lost power
+			// between the two updates): a reader may refuse it or go by the first copy, it does not write
+			if rep := indep.CheckFAT(d, start, bi.Size, map[string]int{"fat12": 12, "fat16": 16, "fat32": 32}[kind]); len(rep.Problems) == 0 && rep.FATBytes > 8 {
+				o := start + rep.FATStart + 2*rep.FATBytes - 1
+				b := d.Peek(o, 1)
+				d.Poke(o, []byte{b[0] ^ 0x01})
+				res.Probe("foreign-fat-copies-differ")
+			}
 		case strings.HasPrefix(kind, "fat"):
 			if c11ClusterlessEmpty(d, start, bi.Size, map[string]int{"fat12": 12, "fat16": 16, "fat32": 32}[kind]) {
 				res.Probe("foreign-clusterless-empty-file")
@@ -192,7 +201,14 @@ func (p c11) Exec(t *core.Trace) *core.Result {
 		}
 		hashBefore = hashFile(imgPath)
 		if attach == 2 {
-			b, err := file.OpenFromPath(imgPath, true)
+			// (every other run through the variant that takes the exclusive flag, which a read-only open ignores)
+			var b backend.Storage
+			var err error
+			if t.Seed&1 == 1 {
+				b, err = file.OpenFromPathWithExclusive(imgPath, true, false)
+			} else {
+				b, err = file.OpenFromPath(imgPath, true)
+			}
 			if err != nil {
 				panic(err)
 			}
